@@ -11,6 +11,8 @@ package main
 import (
 	"bufio"
 	"bytes"
+	"context"
+	"encoding/base64"
 	"encoding/hex"
 	"encoding/json"
 	"fmt"
@@ -50,7 +52,24 @@ func edgeLess(a, b edge) bool {
 type presT struct {
 	Promise bool // hand the result over through apifu.Go
 	Nil     bool // an empty result is the untyped nil
+	Err     int  // 0: no error; 1: the call fails with the error "getter-error-<call index>"; 2: a typed nil error value; 3: no error, but a value that is neither nil nor a slice
+	Partial bool // a failing call returns the first half of its edges beside the error (otherwise nil)
+	Delay   int  // a promise resolves after Delay x 300 microseconds (orders the resolutions)
 }
+
+const (
+	errNone     = 0
+	errReal     = 1
+	errTypedNil = 2
+	errBadValue = 3
+)
+
+// an error type whose nil pointer is a non-nil error interface value
+type typedErr struct{}
+
+func (*typedErr) Error() string { return "typed nil error dereferenced" }
+
+const totalCountErrorMessage = "total-count-error"
 
 const (
 	getterExact    = 0 // first/last |limit| edges of the range in (time, id) order
@@ -64,6 +83,11 @@ type workReq struct {
 	Pres     []presT // per getter call; calls beyond the list are synchronous slices
 	TypedNil bool    // empty results that are not the untyped nil: typed nil slice instead of empty slice
 	Query    string
+	TCErr    bool // ResolveTotalCount fails
+	TCAsync  bool // ResolveTotalCount answers through apifu.Go
+	Zone     int  // EdgeCursor builds the cursor with NewTimeBasedCursor from a time.Time in this zone (seconds east)
+	First    *int // the first / last arguments of the request, for the field's cost functions
+	Last     *int
 }
 
 type workResp struct {
@@ -71,6 +95,9 @@ type workResp struct {
 	Body    string
 	Triples [][3]string // min, max (nanoseconds since the epoch, decimal), limit
 	Returns [][]edge    // what the getter answered to each call, in the order it returned the edges
+	Raised  []int       // per call: errNone / errReal / errTypedNil
+	TCCalls int         // calls of ResolveTotalCount
+	Cost    [3]int      // the connection field's Cost: Resolver, Multiplier; the Multiplier of its edges field
 }
 
 // zbig writes an integer of any size.  (internal/sexp prints values below 2^61 in decimal, but the
@@ -103,11 +130,14 @@ type workerState struct {
 	calls   int
 	triples [][3]string
 	returns [][]edge
+	raised  []int
+	tcCalls int
+	def     *graphql.FieldDefinition
 }
 
 func newAPI(st *workerState) *apifu.API {
 	cfg := &apifu.Config{}
-	cfg.AddQueryField("connection", apifu.TimeBasedConnection(&apifu.TimeBasedConnectionConfig{
+	st.def = apifu.TimeBasedConnection(&apifu.TimeBasedConnectionConfig{
 		NamePrefix: "Test",
 		EdgeGetter: func(ctx graphql.FieldContext, minTime time.Time, maxTime time.Time, limit int) (interface{}, error) {
 			i := st.calls
@@ -133,11 +163,26 @@ func newAPI(st *workerState) *apifu.API {
 					ret[a], ret[b] = ret[b], ret[a]
 				}
 			}
-			st.returns = append(st.returns, append([]edge{}, ret...))
 			p := presT{}
 			if i < len(st.req.Pres) {
 				p = st.req.Pres[i]
 			}
+			var gerr error
+			switch p.Err {
+			case errReal:
+				gerr = fmt.Errorf("getter-error-%d", i)
+				if p.Partial {
+					ret = ret[:len(ret)/2]
+				} else {
+					ret = nil
+				}
+			case errTypedNil:
+				gerr = (*typedErr)(nil)
+			case errBadValue:
+				ret = nil
+			}
+			st.returns = append(st.returns, append([]edge{}, ret...))
+			st.raised = append(st.raised, p.Err)
 			var res interface{} = ret
 			if len(ret) == 0 {
 				switch {
@@ -149,13 +194,48 @@ func newAPI(st *workerState) *apifu.API {
 					res = []edge{}
 				}
 			}
-			if p.Promise {
-				return apifu.Go(ctx.Context, func() (interface{}, error) { return res, nil }), nil
+			if p.Err == errReal && !p.Partial {
+				res = nil
 			}
-			return res, nil
+			if p.Err == errBadValue {
+				// a string, a map, or (Partial) a promise - synchronously that is a promise
+				// resolving to a promise, through a promise one more level
+				switch {
+				case p.Partial && p.Promise:
+					res = apifu.Go(ctx.Context, func() (interface{}, error) { return []edge{}, nil })
+				case p.Nil:
+					res = map[string]int{"a": 1}
+				default:
+					res = "xy"
+				}
+			}
+			if p.Promise {
+				delay := time.Duration(p.Delay) * 300 * time.Microsecond
+				return apifu.Go(ctx.Context, func() (interface{}, error) {
+					if delay > 0 {
+						time.Sleep(delay)
+					}
+					return res, gerr
+				}), nil
+			}
+			return res, gerr
+		},
+		ResolveTotalCount: func(ctx graphql.FieldContext) (interface{}, error) {
+			st.tcCalls++
+			n := len(st.req.Edges)
+			var err error
+			if st.req.TCErr {
+				err = fmt.Errorf(totalCountErrorMessage)
+			}
+			if st.req.TCAsync {
+				return apifu.Go(ctx.Context, func() (interface{}, error) { return n, err }), nil
+			}
+			return n, err
 		},
 		EdgeCursor: func(e interface{}) apifu.TimeBasedCursor {
-			return apifu.TimeBasedCursor{Nano: e.(edge).Nano, Id: e.(edge).Id}
+			// the library's constructor, from a time.Time carrying a location: the cursor must not depend on it
+			t := time.Unix(0, e.(edge).Nano).In(time.FixedZone("", st.req.Zone))
+			return apifu.NewTimeBasedCursor(t, e.(edge).Id)
 		},
 		EdgeFields: map[string]*graphql.FieldDefinition{
 			"node": {
@@ -166,12 +246,33 @@ func newAPI(st *workerState) *apifu.API {
 				},
 			},
 		},
-	}))
+	})
+	cfg.AddQueryField("connection", st.def)
 	api, err := apifu.NewAPI(cfg)
 	if err != nil {
 		panic(err)
 	}
 	return api
+}
+
+// fieldCost asks the connection field's own cost functions: the field's (Resolver, Multiplier) for
+// the given first / last arguments, and the Multiplier of its edges field under the context the
+// field's cost function hands down (-1: none handed down)
+func fieldCost(def *graphql.FieldDefinition, first, last *int) [3]int {
+	args := map[string]interface{}{}
+	if first != nil {
+		args["first"] = *first
+	}
+	if last != nil {
+		args["last"] = *last
+	}
+	fc := def.Cost(graphql.FieldCostContext{Context: context.Background(), Arguments: args})
+	em := -1
+	if fc.Context != nil {
+		edges := def.Type.(*graphql.ObjectType).Fields["edges"]
+		em = edges.Cost(graphql.FieldCostContext{Context: fc.Context, Arguments: map[string]interface{}{}}).Multiplier
+	}
+	return [3]int{fc.Resolver, fc.Multiplier, em}
 }
 
 func workerMain() {
@@ -187,13 +288,14 @@ func workerMain() {
 				fmt.Fprintln(os.Stderr, "worker: bad request:", e)
 				os.Exit(3)
 			}
-			st.req, st.calls, st.triples, st.returns = &req, 0, nil, nil
+			st.req, st.calls, st.triples, st.returns, st.raised, st.tcCalls = &req, 0, nil, nil, nil, 0
 			body, _ := json.Marshal(map[string]interface{}{"query": req.Query})
 			hr := httptest.NewRequest("POST", "/graphql", bytes.NewReader(body))
 			hr.Header.Set("Content-Type", "application/json")
 			w := httptest.NewRecorder()
 			api.ServeGraphQL(w, hr)
-			resp, _ := json.Marshal(workResp{Status: w.Code, Body: w.Body.String(), Triples: st.triples, Returns: st.returns})
+			resp, _ := json.Marshal(workResp{Status: w.Code, Body: w.Body.String(), Triples: st.triples, Returns: st.returns, Raised: st.raised, TCCalls: st.tcCalls,
+				Cost: fieldCost(st.def, req.First, req.Last)})
 			out.Write(resp)
 			out.WriteByte('\n')
 			out.Flush()
@@ -334,6 +436,8 @@ type argSpec struct {
 	After, Before curArg
 	From, To      *time.Time
 	Info          bool
+	Total         bool // totalCount is selected
+	TotalFirst    bool // ... before edges and pageInfo
 }
 
 func intp(i int) *int { return &i }
@@ -368,6 +472,11 @@ func (a argSpec) query() string {
 	if a.Info {
 		sel += " pageInfo{hasPreviousPage hasNextPage startCursor endCursor}"
 	}
+	if a.Total && a.TotalFirst {
+		sel = "totalCount " + sel
+	} else if a.Total {
+		sel += " totalCount"
+	}
 	return "{connection" + args + "{" + sel + "}}"
 }
 
@@ -385,10 +494,27 @@ func optTime(p *time.Time) sexp.Node {
 	return sexp.Some(zbig(nanosOf(*p)))
 }
 
+// the DateTime argument text exactly as query() sends it
+func optTimeStr(t *time.Time) sexp.Node {
+	if t == nil {
+		return sexp.None()
+	}
+	return sexp.Some(sexp.Str(t.Format(time.RFC3339Nano)))
+}
+
+func optStr(c curArg) sexp.Node {
+	if c == nil {
+		return sexp.None()
+	}
+	return sexp.Some(sexp.Str(*c))
+}
+
 func (a argSpec) sexp() sexp.Node {
 	return sexp.T("args", sexp.T("first", optInt(a.First)), sexp.T("last", optInt(a.Last)),
 		sexp.T("after", curSexp(a.After)), sexp.T("before", curSexp(a.Before)),
-		sexp.T("from", optTime(a.From)), sexp.T("to", optTime(a.To)))
+		sexp.T("from", optTime(a.From)), sexp.T("to", optTime(a.To)),
+		sexp.T("afterraw", optStr(a.After)), sexp.T("beforeraw", optStr(a.Before)),
+		sexp.T("fromraw", optTimeStr(a.From)), sexp.T("toraw", optTimeStr(a.To)))
 }
 
 // ---------------------------------------------------------------------------------------------
@@ -396,6 +522,7 @@ func (a argSpec) sexp() sexp.Node {
 // ---------------------------------------------------------------------------------------------
 
 type obsT struct {
+	total                       *int
 	crashed, isError, malformed bool
 	edges                       []edge
 	hasInfo                     bool
@@ -449,6 +576,7 @@ func observe(resp workResp, crashed, hung bool) (obsT, sexp.Node) {
 					HasPreviousPage, HasNextPage bool
 					StartCursor, EndCursor       string
 				}
+				TotalCount *int
 			}
 		}
 		Errors []struct{ Message string }
@@ -457,12 +585,26 @@ func observe(resp workResp, crashed, hung bool) (obsT, sexp.Node) {
 		return obsT{malformed: true}, sexp.T("malformed", sexp.Int(resp.Status))
 	}
 	if len(body.Errors) > 0 || body.Data == nil || body.Data.Connection == nil {
-		return obsT{isError: true}, sexp.T("error")
+		// which error: one the harness getter raised (by call index), the harness's total count
+		// error, or anything else (the library's own messages are not compared)
+		var ms []sexp.Node
+		for _, e := range body.Errors {
+			var k int
+			if n, err := fmt.Sscanf(e.Message, "getter-error-%d", &k); err == nil && n == 1 && e.Message == fmt.Sprintf("getter-error-%d", k) {
+				ms = append(ms, sexp.T("g", sexp.Int(k)))
+			} else if e.Message == totalCountErrorMessage {
+				ms = append(ms, sexp.T("tc"))
+			} else {
+				ms = append(ms, sexp.T("other"))
+			}
+		}
+		return obsT{isError: true}, sexp.T("error", ms...)
 	}
 	c := body.Data.Connection
 	o := obsT{}
-	var es, cs []sexp.Node
+	var es, cs, raws []sexp.Node
 	for _, e := range c.Edges {
+		raws = append(raws, sexp.Str(e.Cursor))
 		ed, ok := parseNode(e.Node)
 		if !ok {
 			return obsT{malformed: true}, sexp.T("malformed", sexp.Str(e.Node))
@@ -482,7 +624,9 @@ func observe(resp workResp, crashed, hung bool) (obsT, sexp.Node) {
 		o.start, o.end = c.PageInfo.StartCursor, c.PageInfo.EndCursor
 		info = sexp.T("info", sexp.Bool(o.hasPrev), sexp.Bool(o.hasNext), optCursorString(o.start), optCursorString(o.end))
 	}
-	return o, sexp.T("page", sexp.L(es...), sexp.L(cs...), info)
+	o.total = c.TotalCount
+	return o, sexp.T("page", sexp.L(es...), sexp.L(cs...), info, optInt(c.TotalCount),
+		sexp.T("raw", sexp.L(raws...), sexp.Str(o.start), sexp.Str(o.end)))
 }
 
 // ---------------------------------------------------------------------------------------------
@@ -494,19 +638,23 @@ type env struct {
 	edges    []edge
 	getter   int
 	typedNil bool
+	tcErr    bool
+	tcAsync  bool
+	zone     int
 }
 
 func presSexp(ps []presT) sexp.Node {
 	var l []sexp.Node
 	for _, p := range ps {
-		l = append(l, sexp.L(sexp.Bool(p.Promise), sexp.Bool(p.Nil)))
+		l = append(l, sexp.L(sexp.Bool(p.Promise), sexp.Bool(p.Nil), sexp.Int(p.Err), sexp.Bool(p.Partial), sexp.Int(p.Delay)))
 	}
 	return sexp.L(l...)
 }
 
 func (e *env) step(a argSpec, ps []presT) (obsT, sexp.Node) {
 	skipped := e.run.hangs >= maxHangs
-	resp, crashed, hung := e.run.do(&workReq{Edges: e.edges, Getter: e.getter, Pres: ps, TypedNil: e.typedNil, Query: a.query()})
+	resp, crashed, hung := e.run.do(&workReq{Edges: e.edges, Getter: e.getter, Pres: ps, TypedNil: e.typedNil, Query: a.query(),
+		TCErr: e.tcErr, TCAsync: e.tcAsync, Zone: e.zone, First: a.First, Last: a.Last})
 	o, on := observe(resp, crashed, hung)
 	if skipped {
 		on = sexp.T("skipped-after-hangs")
@@ -520,9 +668,15 @@ func (e *env) step(a argSpec, ps []presT) (obsT, sexp.Node) {
 		for _, x := range resp.Returns[i] {
 			ret = append(ret, edgeNode(x.Nano, x.Id))
 		}
-		ts = append(ts, sexp.L(zbig(mn), zbig(mx), zbig(lim), sexp.L(ret...)))
+		ts = append(ts, sexp.L(zbig(mn), zbig(mx), zbig(lim), sexp.L(ret...), sexp.Int(resp.Raised[i])))
 	}
-	return o, sexp.T("step", a.sexp(), sexp.T("info", sexp.Bool(a.Info)), sexp.T("pres", presSexp(ps)),
+	tc := sexp.T("val", sexp.Int(len(e.edges)))
+	if e.tcErr {
+		tc = sexp.T("err")
+	}
+	return o, sexp.T("step", a.sexp(), sexp.T("info", sexp.Bool(a.Info)), sexp.T("total", sexp.Bool(a.Total)), sexp.T("tc", tc),
+		sexp.T("tccalls", sexp.Int(resp.TCCalls)), sexp.T("cost", sexp.Int(resp.Cost[0]), sexp.Int(resp.Cost[1]), sexp.Int(resp.Cost[2])),
+		sexp.T("pres", presSexp(ps)),
 		sexp.T("obs", on), sexp.T("triples", sexp.L(ts...)))
 }
 
@@ -644,17 +798,59 @@ func randomPres(r *rng.R) []presT {
 	case 0:
 		return nil // all synchronous slices
 	case 1:
-		return []presT{{true, false}, {true, false}, {true, false}}
+		return []presT{{Promise: true}, {Promise: true}, {Promise: true}}
 	case 2:
-		return []presT{{true, true}, {true, true}, {true, true}}
+		return []presT{{Promise: true, Nil: true}, {Promise: true, Nil: true}, {Promise: true, Nil: true}}
 	case 3:
-		return []presT{{false, true}, {false, true}, {false, true}}
+		return []presT{{Nil: true}, {Nil: true}, {Nil: true}}
 	}
 	ps := make([]presT, 3)
 	for i := range ps {
-		ps[i] = presT{r.Bool(), r.Bool()}
+		ps[i] = presT{Promise: r.Bool(), Nil: r.Bool()}
 	}
 	return ps
+}
+
+// withErrors makes some of the calls fail: synchronously, through the promise, several at once,
+// with or without a partial result beside the error, as a typed nil error value; promises
+// resolve in a random order (Delay)
+func withErrors(r *rng.R, ps []presT) []presT {
+	out := make([]presT, 3)
+	copy(out, ps)
+	mode := r.Intn(8)
+	for i := range out {
+		out[i].Delay = r.Intn(4)
+		out[i].Partial = r.Bool()
+		switch mode {
+		case 0: // exactly one call fails
+		case 1, 2, 3: // each call fails with probability 1/2
+			if r.Bool() {
+				out[i].Err = errReal
+			}
+		case 4: // typed nil error values only
+			if r.Bool() {
+				out[i].Err = errTypedNil
+			}
+		case 5: // values that are neither nil nor a slice (a string, a map, a promise resolving to a promise)
+			if r.Bool() {
+				out[i].Err = errBadValue
+			}
+		default: // anything
+			out[i].Err = rng.Pick(r, []int{errNone, errNone, errReal, errReal, errTypedNil, errBadValue})
+		}
+	}
+	if mode == 0 {
+		out[r.Intn(3)].Err = errReal
+	}
+	return out
+}
+
+// zones for the time.Time values the harness's EdgeCursor hands to NewTimeBasedCursor
+var zones = []int{0, 5 * 3600, -(11*3600 + 1800), 14 * 3600}
+
+func randomEnv(r *rng.R, run *runner, d []edge) *env {
+	return &env{run: run, edges: d, getter: r.Intn(3), typedNil: r.Bool(),
+		tcErr: r.Chance(1, 6), tcAsync: r.Bool(), zone: rng.Pick(r, zones)}
 }
 
 var extremeTimes = []int64{math.MinInt64, math.MinInt64 + 1, -5, 0, 7, math.MaxInt64 - 1, math.MaxInt64}
@@ -730,10 +926,22 @@ func randomCursor(r *rng.R, d []edge) curArg {
 	return curOf(rng.Pick(r, extremeTimes), rng.Pick(r, idPool))
 }
 
+// DateTime arguments outside the int64-nanosecond range (1677-09-21 .. 2262-04-11): the scalar
+// accepts years 0000-9999 and zone offsets up to +-23:59, so instants from 31 December of the year
+// -1 to 1 January 10000; Go's zero time; the ends of the int64 range to the nanosecond
 var farTimes = []time.Time{
 	time.Date(1, 1, 1, 0, 0, 0, 0, time.UTC), time.Date(1, 1, 1, 0, 0, 0, 1, time.UTC),
 	time.Date(1600, 2, 3, 4, 5, 6, 7, time.UTC), time.Date(2999, 12, 31, 23, 59, 59, 999999999, time.UTC),
 	time.Date(3000, 1, 1, 0, 0, 0, 0, time.UTC), time.Date(9999, 12, 31, 23, 59, 59, 0, time.UTC),
+	time.Date(0, 1, 1, 0, 0, 0, 0, time.UTC), time.Date(0, 12, 31, 23, 59, 59, 999999999, time.UTC),
+	time.Date(0, 1, 1, 0, 0, 0, 0, time.FixedZone("", 23*3600+59*60)),                  // the year -1
+	time.Date(9999, 12, 31, 23, 59, 59, 999999999, time.FixedZone("", -23*3600-59*60)), // the year 10000
+	time.Date(1, 1, 1, 0, 0, 0, 0, time.FixedZone("", 5*3600)),                         // before the zero time
+	time.Unix(0, math.MinInt64).UTC(), time.Unix(0, math.MinInt64).UTC().Add(-time.Nanosecond),
+	time.Unix(0, math.MaxInt64).UTC(), time.Unix(0, math.MaxInt64).UTC().Add(time.Nanosecond),
+	time.Unix(0, math.MaxInt64).In(time.FixedZone("", -7*3600)).Add(2 * time.Nanosecond),
+	time.Date(1677, 9, 21, 0, 12, 43, 145224191, time.UTC), time.Date(2262, 4, 11, 23, 47, 16, 854775808, time.UTC),
+	time.Date(2263, 1, 1, 0, 0, 0, 0, time.UTC), time.Date(1677, 1, 1, 0, 0, 0, 0, time.UTC),
 }
 
 func randomBound(r *rng.R, d []edge) *time.Time {
@@ -769,6 +977,76 @@ func randomArgs(r *rng.R, d []edge) argSpec {
 
 var hostileCursors = []string{"", "!!!", "AAAA", "gA", "kQ", "gqROYW5vAQ", "gqROYW5v0xXlmjan9SgAoklkoA", "gqJJZKFh", "gqROYW5voWGiSWSgYQ", "wA", "zP8"}
 
+// crafted msgpack documents for DeserializeCursor's struct decoder: nil, arrays, map16 / map32,
+// keys as bin, every integer code, duplicate and unknown keys, missing fields, trailing bytes,
+// truncation, a line break inside the base64 text
+// dirtyTail sets the unused low bits of the last base64 character of a final partial quantum
+func dirtyTail(s string) string {
+	const alphabet = "ABCDEFGHIJKLMNOPQRSTUVWXYZabcdefghijklmnopqrstuvwxyz0123456789-_"
+	if len(s)%4 < 2 {
+		return s
+	}
+	v := strings.IndexByte(alphabet, s[len(s)-1])
+	return s[:len(s)-1] + string(alphabet[v|1])
+}
+
+var craftedCursors = func() []string {
+	enc := func(b ...byte) string { return base64.RawURLEncoding.EncodeToString(b) }
+	nano := []byte{0xa4, 'N', 'a', 'n', 'o'}
+	id := []byte{0xa2, 'I', 'd'}
+	cat := func(parts ...[]byte) []byte {
+		var out []byte
+		for _, p := range parts {
+			out = append(out, p...)
+		}
+		return out
+	}
+	valid := cat([]byte{0x82}, nano, []byte{0xd3, 0, 0, 0, 0, 0, 0, 0, 200}, id, []byte{0xa1, 'a'})
+	vs := enc(valid...)
+	return []string{
+		enc(0xc0),                                // nil: the zero cursor
+		enc(0x80),                                // empty map
+		enc(0x90),                                // empty array
+		enc(0x91, 0xd0, 0xff),                    // [int8 -1]
+		enc(0x92, 0x64, 0xa1, 'b'),               // [100, "b"]
+		enc(0x93, 0x64, 0xa1, 'b', 0xc0),         // three elements: the third is skipped
+		enc(0xdc, 0, 2, 0xcc, 200, 0xd9, 1, 'a'), // array16, uint8, str8
+		enc(cat([]byte{0xde, 0, 2}, nano, []byte{0xcd, 1, 0x2c}, id, []byte{0xda, 0, 1, 'a'})...), // map16, uint16 300, str16
+		enc(cat([]byte{0xdf, 0, 0, 0, 2}, nano, []byte{0xce, 0, 0, 0, 100}, id, []byte{0xdb, 0, 0, 0, 1, 'c'})...),
+		enc(cat([]byte{0x83}, nano, []byte{1}, nano, []byte{0x64}, id, []byte{0xa1, 'b'})...), // duplicate key: the later one counts
+		enc(cat([]byte{0x81, 0xc4, 4, 'N', 'a', 'n', 'o', 0x64})...),                          // key as bin8, Id missing
+		enc(cat([]byte{0x81}, id, []byte{0xa1, 'z'})...),                                      // Nano missing
+		enc(cat([]byte{0x82}, id, []byte{0xc0}, nano, []byte{0xc0})...),                       // both nil
+		enc(cat([]byte{0x81}, nano, []byte{0xcf, 255, 255, 255, 255, 255, 255, 255, 255})...), // uint64 max = int64 -1
+		enc(cat([]byte{0x81}, nano, []byte{0xd1, 0xff, 0x9c})...),                             // int16 -100
+		enc(cat([]byte{0x81}, nano, []byte{0xd2, 0x80, 0, 0, 0})...),                          // int32 min
+		enc(cat([]byte{0x81}, nano, []byte{0xe0})...),                                         // negative fixnum -32
+		enc(cat([]byte{0x82, 0xa1, 'x', 1}, nano, []byte{0x64})...),                           // unknown key (skipped)
+		enc(cat(valid, []byte{0xff, 0xff})...),                                                // trailing bytes
+		enc(valid[:9]...),                                                                     // truncated integer
+		enc(cat([]byte{0x82}, nano, []byte{0xa1, 'x'})...),                                    // a string where the integer belongs
+		enc(cat([]byte{0x81}, id, []byte{0x05})...),                                           // an integer where the string belongs
+		enc(0xdf, 255, 255, 255, 255),                                                         // map32 of 4 billion entries, no bytes
+		enc(0xde, 0),                                                                          // truncated map16 length
+		vs[:10] + "\n" + vs[10:],                                                              // a line break inside the base64 text
+		vs + "=",                                                                              // padding is not accepted
+		// values of unknown keys and surplus array elements are skipped (d.Skip): nested containers, bin, ext, floats
+		enc(cat([]byte{0x82, 0xa1, 'x', 0x81, 0xa1, 'y', 0x92, 1, 0x90}, nano, []byte{0x64})...),
+		enc(cat([]byte{0x82, 0xa1, 'x', 0xc7, 2, 5, 0xaa, 0xbb}, nano, []byte{0x64})...),
+		enc(cat([]byte{0x82, 0xa1, 'x', 0xcb, 1, 2, 3, 4, 5, 6, 7, 8}, nano, []byte{0x64})...),
+		enc(cat([]byte{0x83, 0xa1, 'x', 0xc5, 0, 2, 0xaa, 0xbb, 0xa1, 'y', 0xd6, 1, 0xaa, 0xbb, 0xcc, 0xdd}, nano, []byte{0x64})...),
+		enc(cat([]byte{0x82, 0xa1, 'x', 0xde, 0, 1, 0xa1, 'k', 0xca, 0, 0, 0, 0}, id, []byte{0xa1, 'q'})...),
+		enc(cat([]byte{0x82, 0xa1, 'x', 0xc1}, nano, []byte{0x64})...),             // 0xc1 is no msgpack code
+		enc(cat([]byte{0x82, 0xa1, 'x', 0x92, 1})...),                              // the skipped value is truncated
+		enc(cat([]byte{0x82, 0xa1, 'x', 0xc7, 9, 5, 0xaa}, nano, []byte{0x64})...), // ext8 longer than the document
+		enc(0x94, 0x64, 0xa1, 'b', 0x81, 0xa1, 'k', 0xc0, 0x90),                    // four elements, two skipped
+		enc(0x93, 0x64, 0xa1, 'b'),                   // the third element is missing
+		enc(0xdd, 0, 0, 0, 3, 0x64, 0xa1, 'b', 0xc3), // array32
+		"wB", "gP", dirtyTail(vs), dirtyTail(enc(cat([]byte{0x81}, nano, []byte{0x64})...)), dirtyTail(enc(0x92, 0x64, 0xa1, 'b')), // unused trailing bits set (accepted: the decoder is not strict)
+		vs[:len(vs)-1], // last character missing
+	}
+}()
+
 func hostileArgs(r *rng.R, d []edge) argSpec {
 	a := randomArgs(r, d)
 	switch r.Intn(6) {
@@ -787,6 +1065,9 @@ func hostileArgs(r *rng.R, d []edge) argSpec {
 	}
 	if r.Chance(1, 3) {
 		a.After = curRaw(rng.Pick(r, hostileCursors))
+	}
+	if r.Chance(1, 3) {
+		a.Before = curRaw(rng.Pick(r, craftedCursors))
 	}
 	return a
 }
@@ -880,7 +1161,8 @@ func main() {
 		}
 
 		// D. random data sets (adjacent nanoseconds, extremes of int64, ids with prefixes / upper
-		// case / non-ASCII / empty) and random arguments (far DateTimes, foreign cursors)
+		// case / non-ASCII / empty) and random arguments (far DateTimes, foreign cursors); one in
+		// five with failing getter calls, one in three selecting totalCount
 		nRandom := 6000
 		if thorough {
 			nRandom = 600000
@@ -888,9 +1170,105 @@ func main() {
 		for i := 0; i < nRandom; i++ {
 			h.Case(func(r *rng.R) sexp.Node {
 				d := randomDataset(r)
-				e := &env{run: run, edges: d, getter: r.Intn(3), typedNil: r.Bool()}
-				return e.single(randomArgs(r, d), randomPres(r))
+				e := randomEnv(r, run, d)
+				a := randomArgs(r, d)
+				a.Total, a.TotalFirst = r.Chance(1, 3), r.Bool()
+				ps := randomPres(r)
+				if r.Chance(1, 5) {
+					ps = withErrors(r, ps)
+				}
+				return e.single(a, ps)
 			})
+		}
+
+		// G. failing getter calls and totalCount.  G1: a request with three range queries (after and
+		// before cursors on different timestamps), every combination of {sync, promise} x {no error,
+		// error, typed nil error} per call x pageInfo / totalCount selected or not
+		{
+			base := argSpec{After: curOf(100, "a"), Before: curOf(300, "a")}
+			for code := 0; code < 6*6*6; code++ {
+				for selc := 0; selc < 4; selc++ {
+					code, selc := code, selc
+					h.Case(func(r *rng.R) sexp.Node {
+						ps := make([]presT, 3)
+						c := code
+						for i := range ps {
+							ps[i] = presT{Promise: c%2 == 1, Err: c / 2 % 3, Nil: r.Bool(), Partial: r.Bool(), Delay: r.Intn(4)}
+							c /= 6
+						}
+						a := base
+						a.Info, a.Total, a.TotalFirst = selc&1 == 1, selc&2 == 2, r.Bool()
+						if r.Bool() {
+							a.First = intp(rng.Pick(r, []int{0, 1, 10}))
+						} else {
+							a.Last = intp(rng.Pick(r, []int{0, 1, 10}))
+						}
+						e := &env{run: run, edges: shuffled(r, d0), getter: r.Intn(3), typedNil: r.Bool(),
+							tcErr: r.Chance(1, 4), tcAsync: r.Bool(), zone: rng.Pick(r, zones)}
+						return e.single(a, ps)
+					})
+				}
+			}
+		}
+		// G1b: the same request, every combination of {sync, promise} x {fine, error, non-slice value}
+		// per call (the combinations without a non-slice value are in G1)
+		{
+			base := argSpec{After: curOf(100, "a"), Before: curOf(300, "a"), Info: true}
+			kinds := []int{errNone, errReal, errBadValue}
+			for code := 0; code < 6*6*6; code++ {
+				c := code
+				hasBad := false
+				for i := 0; i < 3; i++ {
+					if kinds[c/2%3] == errBadValue {
+						hasBad = true
+					}
+					c /= 6
+				}
+				if !hasBad {
+					continue
+				}
+				code := code
+				h.Case(func(r *rng.R) sexp.Node {
+					ps := make([]presT, 3)
+					c := code
+					for i := range ps {
+						ps[i] = presT{Promise: c%2 == 1, Err: kinds[c/2%3], Nil: r.Bool(), Partial: r.Bool(), Delay: r.Intn(4)}
+						c /= 6
+					}
+					a := base
+					a.Total, a.TotalFirst = r.Bool(), r.Bool()
+					if r.Bool() {
+						a.First = intp(rng.Pick(r, []int{0, 1, 10}))
+					} else {
+						a.Last = intp(rng.Pick(r, []int{0, 1, 10}))
+					}
+					e := &env{run: run, edges: shuffled(r, d0), getter: r.Intn(3), typedNil: r.Bool(),
+						tcErr: r.Chance(1, 4), tcAsync: r.Bool(), zone: rng.Pick(r, zones)}
+					return e.single(a, ps)
+				})
+			}
+		}
+		// G2: the argument grid (fewer values) with random failures, hand-overs and resolution orders
+		nG2 := 8
+		if thorough {
+			nG2 = 200
+		}
+		for _, d := range gridSets[:2] {
+			for _, after := range []curArg{nil, curOf(100, "a"), curOf(200, "a")} {
+				for _, before := range []curArg{nil, curOf(200, "b"), curOf(300, "a")} {
+					for _, x := range []fl{{intp(0), nil}, {intp(2), nil}, {nil, intp(0)}, {nil, intp(10)}} {
+						for rep := 0; rep < nG2; rep++ {
+							d, after, before, x := d, after, before, x
+							h.Case(func(r *rng.R) sexp.Node {
+								e := randomEnv(r, run, shuffled(r, d))
+								a := argSpec{First: x.first, Last: x.last, After: after, Before: before,
+									From: rng.Pick(r, fromGrid), To: rng.Pick(r, toGrid), Info: r.Bool(), Total: r.Bool(), TotalFirst: r.Bool()}
+								return e.single(a, withErrors(r, randomPres(r)))
+							})
+						}
+					}
+				}
+			}
 		}
 
 		// E. walks over the pages: every page size, both directions
@@ -930,13 +1308,86 @@ func main() {
 							case 0:
 								return nil
 							case 1:
-								return []presT{{true, false}, {true, false}, {true, false}}
+								return []presT{{Promise: true}, {Promise: true}, {Promise: true}}
 							}
 							return randomPres(sub)
 						})
 					})
 				}
 			}
+		}
+
+		// H. every crafted cursor document as after and as before cursor
+		for _, c := range craftedCursors {
+			for _, asAfter := range []bool{true, false} {
+				c, asAfter := c, asAfter
+				h.Case(func(r *rng.R) sexp.Node {
+					e := randomEnv(r, run, shuffled(r, d0))
+					a := argSpec{First: intp(10), Info: true}
+					if asAfter {
+						a.After = curRaw(c)
+					} else {
+						a.Last, a.First, a.Before = intp(10), nil, curRaw(c)
+					}
+					return e.single(a, randomPres(r))
+				})
+			}
+		}
+
+		// I. DateTime arguments outside the int64-nanosecond range against edges and cursors at the
+		// ends of that range: every pair of far bounds, with and without cursors
+		{
+			mx, mn := int64(math.MaxInt64), int64(math.MinInt64)
+			d := []edge{{mn, "a"}, {mn, "b"}, {mn + 1, "a"}, {0, "a"}, {mx - 1, "a"}, {mx, "a"}, {mx, "b"}}
+			curs := []curArg{nil, curOf(mn, "a"), curOf(mx, "a"), curOf(0, "")}
+			for i := range farTimes {
+				for j := range farTimes {
+					i, j := i, j
+					h.Case(func(r *rng.R) sexp.Node {
+						e := randomEnv(r, run, shuffled(r, d))
+						a := argSpec{From: &farTimes[i], To: &farTimes[j], After: rng.Pick(r, curs), Before: rng.Pick(r, curs), Info: true}
+						if r.Bool() {
+							a.First = intp(rng.Pick(r, []int{0, 1, 10}))
+						} else {
+							a.Last = intp(rng.Pick(r, []int{0, 1, 10}))
+						}
+						if r.Chance(1, 3) {
+							a.From = nil
+						} else if r.Chance(1, 3) {
+							a.To = nil
+						}
+						return e.single(a, randomPres(r))
+					})
+				}
+			}
+		}
+
+		// J. NewTimeBasedCursor / TimeBasedCursor.Time on time.Time values of the years 0-9999, in
+		// any location: the model's int64 wrap-around against the library's constructor
+		nFar := 400
+		if thorough {
+			nFar = 20000
+		}
+		for i := 0; i < nFar; i++ {
+			i := i
+			h.Case(func(r *rng.R) sexp.Node {
+				var t time.Time
+				switch {
+				case i < len(farTimes):
+					t = farTimes[i]
+				case r.Chance(1, 3): // around the ends of the int64 range
+					t = time.Unix(0, rng.Pick(r, []int64{math.MinInt64, math.MaxInt64})).Add(time.Duration(r.Range(-3, 3)))
+				case r.Chance(1, 2): // any second of the years 0-9999
+					t = time.Unix(int64(r.Range(-62167219200, 253402300799)), int64(r.Range(0, 999999999)))
+				default: // inside the range
+					t = time.Unix(int64(r.Range(-9223372036, 9223372036)), int64(r.Range(0, 999999999)))
+				}
+				t = t.In(time.FixedZone("", rng.Pick(r, zones)))
+				c := apifu.NewTimeBasedCursor(t, "x")
+				back := c.Time()
+				return sexp.T("far", zbig(big.NewInt(t.Unix())), sexp.Int(t.Nanosecond()), z64(c.Nano),
+					zbig(big.NewInt(back.Unix())), sexp.Int(back.Nanosecond()))
+			})
 		}
 
 		// F. hostile stream: both / neither / negative counts, undecodable cursor strings
